@@ -20,10 +20,25 @@ static inline bool z_inrange(i128 v){ return v > -ZLIM && v < ZLIM; }
 i128 ZM_mul(i128 a, i128 b);
 i128 ZM_div(i128 a, i128 b);
 i128 ZM_rem(i128 a, i128 b);
-/* the same mathematical functions as side-effect-free terms (no range obligation, no axiom assumed): for use in
- * lemma instances and postconditions; ZM_x(a,b) == ZM_x_pure(a,b) for all arguments */
-i128 ZM_mul_pure(i128 a, i128 b);
-i128 ZM_div_pure(i128 a, i128 b);
-i128 ZM_rem_pure(i128 a, i128 b);
+/* the same mathematical functions as side-effect-free TERMS for postconditions and lemma instances: the very
+ * uninterpreted application that ZM_x(a,b) returns (macros, not functions: a function shared between contract
+ * clauses and instrumented code confuses dfcc).  Facts about them come only from lemma instances. */
+#if defined(ZM_SMALL)
+#include "zsmall.h"
+#define ZM_mul_pure(a, b) zs_mul_pure((i128)(a), (i128)(b))
+#define ZM_div_pure(a, b) zs_div_pure((i128)(a), (i128)(b))
+#define ZM_rem_pure(a, b) zs_rem_pure((i128)(a), (i128)(b))
+#elif defined(ZM_PRECISE)
+#define ZM_mul_pure(a, b) ((i128)(a) * (i128)(b))
+#define ZM_div_pure(a, b) ((i128)(a) / (i128)(b))
+#define ZM_rem_pure(a, b) ((i128)(a) % (i128)(b))
+#else
+i128 __CPROVER_uninterpreted_zmul(i128, i128);
+i128 __CPROVER_uninterpreted_zdiv(i128, i128);
+i128 __CPROVER_uninterpreted_zrem(i128, i128);
+#define ZM_mul_pure(a, b) __CPROVER_uninterpreted_zmul((i128)(a), (i128)(b))
+#define ZM_div_pure(a, b) __CPROVER_uninterpreted_zdiv((i128)(a), (i128)(b))
+#define ZM_rem_pure(a, b) __CPROVER_uninterpreted_zrem((i128)(a), (i128)(b))
+#endif
 #endif
 #endif
